@@ -204,4 +204,15 @@ theorem fact_reload_lists_apiserver :
     Generated.Plugin.reloadListsApiserver = true ∧ ∀ s : State, listed s = s.store ++ s.orphans :=
   ⟨by decide, fun _ => rfl⟩
 
+/-! ### the daemon's start order -/
+
+/-- Hypotheses of the model's faithfulness, regenerated from pkg/ipam/server/server.go (see
+    `Galaxy.Plugin.fact_server_start_order`): the allocation cache is rebuilt from the store only once the process may
+    act (after the lease is held) - the model's `restart` is exactly that, a standby never serves with a cache built
+    earlier -, the plugin is constructed before the informers start - the administrator's reservation events are
+    delivered -, and the API's release / pool-lock functions are the plugin's own. -/
+theorem fact_server_start_order :
+    Generated.Plugin.initRunsAfterLeadershipAcquired = true ∧ Generated.Plugin.informersStartAfterPluginConstructed = true ∧
+      Generated.Plugin.releaseFuncIsPluginRelease = true ∧ Generated.Plugin.lockPoolFuncIsPluginLockDpPool = true := by decide
+
 end Galaxy.Props.C01
